@@ -32,6 +32,21 @@ CHECKS = {
                      "TLC against both brute force and the modelled design.",
                 technique="TLC model checking of the design against brute force; spec->code replay; code->spec trace validation incl. private state",
                 ref="§6 C03"),
+    "C04": dict(engine="GeoFrameOps/GeoFrame/MC_GeoFrame/Trace_GeoFrame (+ RTree, SPGeom, SPMeasure)",
+                text="State machine of one object (rows, index state) with actions Build / Slice / Copy / Cx; TLC checks for every behaviour of "
+                     "the small scope that the mechanism (index path: covered rows + exact test on overlapping rows, sorted; mask path) "
+                     "returns the P-level selection incl. key resolution (scalars, omitted / reversed ends, ends beyond the extent); every "
+                     "Cx-state is replayed on array / GeoSeries / GeoDataFrame (labels, other columns, index-state conformance after each "
+                     "step); random larger objects are judged by TLC.",
+                technique="TLC model checking of a state machine; spec->code replay of TLC behaviours; code->spec trace validation",
+                ref="§6 C04"),
+    "C05": dict(engine="SJoin/MC_SJoin/Trace_SJoin (+ RTree, SPGeom, SPMeasure)",
+                text="TLC checks that candidate generation through the left R-tree plus the exact point test yields exactly the P-level set "
+                     "of intersecting pairs, and computes the joined table (rows as a bag, column roles, unmatched rows) for inner / left / "
+                     "right; every configuration is replayed through sjoin (suffixes, clashes, index names, missing / empty geometries); "
+                     "random frames judged by TLC.",
+                technique="TLC model checking (design = relational definition); spec->code replay; code->spec trace validation",
+                ref="§6 C05"),
     "C07": dict(engine="Hilbert/HilbertSkilling/MC_Hilbert/Trace_Hilbert",
                 text="TLC checks the finite transducer lemma L1-L4 (from which bijectivity, unit steps, corners and refinement follow for "
                      "every order p by the written induction), transducer = textbook recursion, and the transcription of the Skilling "
